@@ -626,57 +626,119 @@ structure LogSet where
   syslog : Bool
 deriving DecidableEq, Repr
 
-/-- one round of the `for k in ('stdout', 'stderr')` loop (note: the log file name is expanded twice) -/
-def logSet (cx : Ctx) (sec : Section) (E : Exps) (k : String) : Except String LogSet := do
-  let lfRow ← match findRow "program" (k ++ "_logfile") with
-    | some r => pure r
-    | none => throw ("model:option not in the generated table: " ++ k ++ "_logfile")
-  let lf0 ← saneget cx.penv sec lfRow [] E
-  let lf1 ← match lf0 with
-    | .str s => (expand E s).map Raw.str
-    | r => pure r
-  let lf ← logfileName cx.dirs lf1
-  let backups ← getField cx.penv "program" sec (k ++ "_logfile_backups") [] E >>= asInt
-  let maxbytes ← getField cx.penv "program" sec (k ++ "_logfile_maxbytes") [] E >>= asInt
-  let syslog ← getField cx.penv "program" sec (k ++ "_syslog") [] E >>= asBool
-  pure (match lf with
-    | .syslog => { logfile := .none, backups, maxbytes, syslog := true }
-    | _ => { logfile := lf, backups, maxbytes, syslog })
+/-! ### the dictionaries of the numprocs loop
 
-/-- the expansions in force for process number `num`, given those left by the previous round -/
-def procExps1 (cx : Ctx) (pre : Pre) (E : Exps) (num : Int) : Exps :=
-  dupdate (dset (dset E "process_num" (.i num)) "numprocs" (.i pre.numprocs)) cx.penv
+  `_processes_from_section` works with two names: `common_expansions` (built once) and `expansions` (what the
+  loop body expands with).  Which statements bind and update `expansions`, and whether they stand in front of
+  the loop or inside it, is GENERATED (`pfsPreLoop`, `pfsLoopHead`, `pfsWriteBack`, `pfsLoopGets`); the model
+  interprets those lists, so a statement moved out of the loop changes the model (and breaks
+  `Props.C14.process_independent`), not only the correspondence. -/
+
+structure XS where
+  common : Exps            -- `common_expansions`
+  cur : Exps               -- `expansions`
+  aliased : Bool           -- `expansions is common_expansions`
+deriving Repr
+
+/-- an in-place update of `expansions` (seen through `common_expansions` too when both name one object) -/
+def XS.mut (s : XS) (f : Exps → Exps) : XS :=
+  { common := if s.aliased then f s.cur else s.common, cur := f s.cur, aliased := s.aliased }
+
+def applyStep (cx : Ctx) (pre : Pre) (num : Int) (s : XS) : ExpStep → XS
+  | .alias => { common := s.common, cur := s.common, aliased := true }
+  | .copy => { common := s.common, cur := s.common, aliased := false }
+  | .setProcessNum => s.mut fun e => dset e "process_num" (.i num)
+  | .setNumprocs => s.mut fun e => dset e "numprocs" (.i pre.numprocs)
+  | .resetEnviron => s.mut fun e => dupdate e cx.penv
+
+/-- in front of the loop: `common_expansions` exists, `expansions` is bound by the generated statements (if any) -/
+def preLoopXS (cx : Ctx) (pre : Pre) (C : Exps) : XS :=
+  pfsPreLoop.foldl (applyStep cx pre 0) { common := C, cur := [], aliased := false }
+
+/-- the statements at the head of the loop body for process number `num` -/
+def loopHead (cx : Ctx) (pre : Pre) (s : XS) (num : Int) : XS :=
+  pfsLoopHead.foldl (applyStep cx pre num) s
 
 def envExps (E : Exps) (environment : KV) : Exps :=
   environment.foldl (fun e kv => dset e ("ENV_" ++ kv.1) (.s kv.2)) E
 
-/-- the body of the `for process_num in range(…)` loop: the process configuration and the expansions
-    it leaves behind (`expansions` aliases `common_expansions` in the source) -/
-def mkProc (cx : Ctx) (kind : PKind) (sec : Section) (pre : Pre) (E : Exps) (num : Int) : Except String (PConfig × Exps) := do
-  let E1 := procExps1 cx pre E num
-  let envStr ← expand E1 pre.environment_str
+def orError {α : Type} (o : Option α) (msg : String) : Except String α :=
+  match o with
+  | some a => .ok a
+  | none => .error msg
+
+/-- `get(section, opt, default[, expansions=expansions])` inside the loop: the nested `get` first does
+    `expansions.update(common_expansions)` on the dictionary it was handed (a new `{}` when none was) -/
+def loopGet (cx : Ctx) (sec : Section) (opt : String) (s : XS) : Except String (CVal × XS) := do
+  let row ← orError (findRow "program" opt) ("model:option not in the generated table: program." ++ opt)
+  let passes ← orError (pfsLoopGets.lookup opt) ("model:the loop does not look this option up: " ++ opt)
+  let s' := if passes then s.mut (fun e => dupdate e s.common) else s
+  let E := if passes then s'.cur else dupdate [] s.common
+  let r ← saneget cx.penv sec row [] E
+  let v ← convert row.conv r
+  pure (v, s')
+
+def rawOfCVal : CVal → Except String Raw
+  | .none => .ok .none
+  | .str x => .ok (.str x)
+  | .int n => .ok (.int n)
+  | .bool b => .ok (.bool b)
+  | .auto => .ok .auto
+  | _ => .error "model:type (unconverted value expected)"
+
+/-- `if isinstance(lf_val, basestring): lf_val = expand(lf_val, expansions, lf_key)` where the source has it -/
+def reexpand (E : Exps) : Raw → Except String Raw
+  | .str x => if pfsLogfileReexpanded then (expand E x).map Raw.str else .ok (.str x)
+  | r => .ok r
+
+def finishLogSet (lf : LogFile) (backups maxbytes : Int) (syslog : Bool) : LogSet :=
+  match lf with
+  | .syslog => { logfile := .none, backups, maxbytes, syslog := true }
+  | _ => { logfile := lf, backups, maxbytes, syslog }
+
+/-- one round of the `for k in ('stdout', 'stderr')` loop -/
+def logSet (cx : Ctx) (sec : Section) (s : XS) (k : String) : Except String (LogSet × XS) := do
+  let a ← loopGet cx sec (k ++ "_logfile") s
+  let lf0 ← rawOfCVal a.1
+  let lf1 ← reexpand a.2.cur lf0
+  let lf ← logfileName cx.dirs lf1
+  let b ← loopGet cx sec (k ++ "_logfile_backups") a.2
+  let backups ← asInt b.1
+  let m ← loopGet cx sec (k ++ "_logfile_maxbytes") b.2
+  let maxbytes ← asInt m.1
+  let y ← loopGet cx sec (k ++ "_syslog") m.2
+  let syslog ← asBool y.1
+  pure (finishLogSet lf backups maxbytes syslog, y.2)
+
+/-- the loop body after its head: the process configuration and the dictionaries it leaves behind -/
+def procBody (cx : Ctx) (kind : PKind) (sec : Section) (pre : Pre) (s1 : XS) : Except String (PConfig × XS) := do
+  let envStr ← expand s1.cur pre.environment_str
   let environment ← dictOfKeyValuePairs envStr
-  let E2 := envExps E1 environment
-  let directory ← getField cx.penv "program" sec "directory" [] E2 >>= asOptStr
-  let out ← logSet cx sec E2 "stdout"
-  let err ← logSet cx sec E2 "stderr"
-  let commandO ← getField cx.penv "program" sec "command" [] E2 >>= asOptStr
-  let command ← match commandO with
-    | some c => pure c
-    | none => throw "constraint:program section does not specify a command"
-  let nameX ← expand E2 pre.process_name
+  let s2 := if pfsWriteBack then s1.mut (fun e => envExps e environment) else s1
+  let d ← loopGet cx sec "directory" s2
+  let directory ← asOptStr d.1
+  let out ← logSet cx sec d.2 "stdout"
+  let err ← logSet cx sec out.2 "stderr"
+  let c ← loopGet cx sec "command" err.2
+  let commandO ← asOptStr c.1
+  let command ← orError commandO "constraint:program section does not specify a command"
+  let nameX ← expand c.2.cur pre.process_name
   let name ← processOrGroupName nameX
   pure ({ kind, name, command, directory, umask := pre.umask, priority := pre.priority, autostart := pre.autostart,
           autorestart := pre.autorestart, startsecs := pre.startsecs, startretries := pre.startretries, uid := pre.uid,
-          stdout_logfile := out.logfile, stdout_capture_maxbytes := pre.stdout_cmaxbytes,
-          stdout_events_enabled := pre.stdout_events, stdout_logfile_backups := out.backups,
-          stdout_logfile_maxbytes := out.maxbytes, stdout_syslog := out.syslog,
-          stderr_logfile := if pre.redirect_stderr then .none else err.logfile,
+          stdout_logfile := out.1.logfile, stdout_capture_maxbytes := pre.stdout_cmaxbytes,
+          stdout_events_enabled := pre.stdout_events, stdout_logfile_backups := out.1.backups,
+          stdout_logfile_maxbytes := out.1.maxbytes, stdout_syslog := out.1.syslog,
+          stderr_logfile := if pre.redirect_stderr then .none else err.1.logfile,
           stderr_capture_maxbytes := pre.stderr_cmaxbytes, stderr_events_enabled := pre.stderr_events,
-          stderr_logfile_backups := err.backups, stderr_logfile_maxbytes := err.maxbytes, stderr_syslog := err.syslog,
+          stderr_logfile_backups := err.1.backups, stderr_logfile_maxbytes := err.1.maxbytes, stderr_syslog := err.1.syslog,
           stopsignal := pre.stopsignal, stopwaitsecs := pre.stopwaitsecs, stopasgroup := pre.stopasgroup,
           killasgroup := pre.killasgroup, exitcodes := pre.exitcodes, redirect_stderr := pre.redirect_stderr,
-          environment, serverurl := pre.serverurl }, E2)
+          environment, serverurl := pre.serverurl }, c.2)
+
+/-- one round of the `for process_num in range(…)` loop -/
+def mkProc (cx : Ctx) (kind : PKind) (sec : Section) (pre : Pre) (s : XS) (num : Int) : Except String (PConfig × XS) :=
+  procBody cx kind sec pre (loopHead cx pre s num)
 
 /-- `range(lo, hi)` as a list, `n` elements from `lo` -/
 def rangeFrom (lo : Int) : Nat → List Int
@@ -687,13 +749,13 @@ def procNums (pre : Pre) : List Int :=
   rangeFrom (procNumLo pre.numprocs pre.numprocs_start)
     (procNumHi pre.numprocs pre.numprocs_start - procNumLo pre.numprocs pre.numprocs_start).toNat
 
-def procLoop (cx : Ctx) (kind : PKind) (sec : Section) (pre : Pre) : Exps → List Int → Except String (List PConfig)
+def procLoop (cx : Ctx) (kind : PKind) (sec : Section) (pre : Pre) : XS → List Int → Except String (List PConfig)
   | _, [] => .ok []
-  | E, num :: rest =>
-    match mkProc cx kind sec pre E num with
+  | s, num :: rest =>
+    match mkProc cx kind sec pre s num with
     | .error e => .error e
-    | .ok (p, E') =>
-      match procLoop cx kind sec pre E' rest with
+    | .ok (p, s') =>
+      match procLoop cx kind sec pre s' rest with
       | .error e => .error e
       | .ok ps => .ok (p :: ps)
 
@@ -717,7 +779,7 @@ def processesUnsorted (cx : Ctx) (kind : PKind) (sec : Section) (secSuffix group
   let E := commonExps cx programName groupName
   let pre ← parsePre cx sec E
   checkPre pre
-  procLoop cx kind sec pre E (procNums pre)
+  procLoop cx kind sec pre (preLoopXS cx pre E) (procNums pre)
 
 def processesFromSection (cx : Ctx) (kind : PKind) (sec : Section) (secSuffix groupName : String) : Except String (List PConfig) :=
   (processesUnsorted cx kind sec secSuffix groupName).map (sortBy pLt)
@@ -741,7 +803,7 @@ structure GConfig where
   /-- unix socket without socket_owner= (socket_owner is outside the modelled subset): options.py derives the owner from
       the uid of `user=` -- None when that uid is os.getuid(), else (uid, gid_for_uid uid).  Two such owners are equal
       exactly when the two uids are equal or both map to None, and in the second case the uids are equal as well, so the
-      uid stands for the owner wherever owners are only compared (SocketConfig.__eq__). -/
+      uid stands for the owner wherever owners are only compared (SocketConfig.__eq__, C15). -/
   socket_owner : Option Int := none
 deriving DecidableEq, Repr
 
